@@ -15,6 +15,7 @@ type DocOpts struct {
 	Keychain     bool // may create users whose authenticator has no inline hash
 	OddAuth      bool // may create authenticators with odd/missing options
 	OddScopes    bool // may name handler / provider types nobody registered (the builder skips such scopes)
+	DupUsers     bool // may list the same user name twice, with different credentials, for disjoint scopes
 	Span         bool // the deployment registers the SPAN handler (mirror host unreachable: requests fall through to START)
 	V6           bool // may use IPv6 prefixes
 	InvalidRegex bool
@@ -138,6 +139,34 @@ func GenDoc(r *Rand, o DocOpts) model.Doc {
 		u.Commands = genCommands(r, o, r.Intn(4))
 		u.Services = genServices(r, d, r.Intn(3))
 		d.Users = append(d.Users, u)
+	}
+	if o.DupUsers && ns >= 2 && len(d.Users) > 0 && r.Chance(60) {
+		// the same name once more, for the scopes the first entry is not in, with another
+		// password: what a name means depends on the scope the connection is bound to
+		src := d.Users[r.Intn(len(d.Users))]
+		var rest []string
+		for _, sc := range d.Secrets {
+			in := false
+			for _, x := range src.Scopes {
+				if x == sc.Name {
+					in = true
+				}
+			}
+			if !in {
+				rest = append(rest, sc.Name)
+			}
+		}
+		if len(rest) > 0 {
+			pw := PwPool[(pwBase+len(d.Users)+1)%len(PwPool)]
+			dup := model.UserCfg{Name: src.Name, Scopes: rest,
+				Authenticator: &model.AuthCfg{Type: 1, Options: map[string]string{"hash": pw.Hash}, Password: pw.Pw}}
+			if r.Chance(50) {
+				dup.Accounter = &model.AcctCfg{Name: "file", Type: 3}
+			}
+			dup.Commands = genCommands(r, o, r.Intn(3))
+			dup.Services = genServices(r, d, r.Intn(3))
+			d.Users = append(d.Users, dup)
+		}
 	}
 	if o.Filters {
 		if r.Chance(40) {
